@@ -595,7 +595,9 @@ fn campaign(ctx: &WorkerCtx, id: &'static str, strat: BoxedStrategy<BatchCase>, 
 
 pub fn replay(v: &Value) -> Result<(), String> {
     let case: BatchCase = serde_json::from_value(v["case"].clone()).map_err(|e| e.to_string())?;
-    for _ in 0..20 {
+    // schedule-dependent cases are repeated; a deterministic hand-written case may ask for fewer repeats
+    let repeats = v["repeats"].as_u64().unwrap_or(20);
+    for _ in 0..repeats {
         if let Outcome::Fail(e) = guarded(&case) {
             return Err(e);
         }
